@@ -76,8 +76,13 @@ def judge(L, tu, tp, target_o, pattern_o, res, same_type):
             return "a non-variable %s is assigned" % (k,)
         b = k.bound
         if b is not None and not b.has_type_variables():
+            def sat(x, depth=0):
+                # TypeParameter.is_subtype only compares the bound by ==; a variable satisfies b when its bound does
+                if x == b or x.is_subtype(b):
+                    return True
+                return isinstance(x, tp.TypeParameter) and x.bound is not None and depth < 10 and sat(x.bound, depth + 1)
             try:
-                ok = v.is_subtype(b) or v == b
+                ok = sat(v)
             except Exception:               # noqa: BLE001
                 ok = True
             if not ok:
